@@ -448,6 +448,18 @@ func (w *world) probes(libSeed int64) []*Scenario {
 		{LibSeed: libSeed, ChainID: constants.EIP155_CHAINID_POLARIS, Height: 100, Note: "sd_other",
 			Pre: []PreOp{{"l4", "777"}},
 			Txs: []TxSpec{{From: 0, PriceGwei: price, GasLimit: 200000, Value: "5", To: "l4"}}},
+		// SELFDESTRUCT(ADDRESS) run by DELEGATECALL in the caller's context: the CALLER's balance burns
+		{LibSeed: libSeed, ChainID: constants.EIP155_CHAINID_POLARIS, Height: 100, Note: "delegatecall into sd_self",
+			Pre: []PreOp{{"l17", "4242"}},
+			Txs: []TxSpec{{From: 0, PriceGwei: price, GasLimit: 200000, Value: "11", To: "l17"}}},
+		// CALLCODE into sd_other (beneficiary another address: conserved), STATICCALL into sd_self (refused)
+		{LibSeed: libSeed, ChainID: constants.EIP155_CHAINID_POLARIS, Height: 100, Note: "callcode / staticcall / create2 / delegated forward",
+			Pre: []PreOp{{"l18", "999"}, {"l19", "555"}},
+			Txs: []TxSpec{{From: 0, PriceGwei: price, GasLimit: 200000, Value: "3", To: "l18"},
+				{From: 0, PriceGwei: price, GasLimit: 200000, Value: "0", To: "l19"},
+				{From: 0, PriceGwei: price, GasLimit: 200000, Value: "17", To: "l20"},
+				{From: 0, PriceGwei: price, GasLimit: 200000, Value: "17", To: "l20"}, // same salt again: address collision
+				{From: 0, PriceGwei: price, GasLimit: 200000, Value: "23", To: "l21"}}},
 		// storage refund: set then clear
 		{LibSeed: libSeed, ChainID: constants.EIP155_CHAINID_POLARIS, Height: 100, Note: "sstore refund",
 			Txs: []TxSpec{{From: 0, PriceGwei: price, GasLimit: 100000, Value: "0", To: "l10", Data: "01"},
